@@ -296,11 +296,11 @@ FixDiff(g, e) == IF g[1] - e[1] \in -1 .. 1 THEN (g[1] - e[1]) * FacOne + g[2] -
 CeilDiv(a, b) == (a + b - 1) \div b
 PsfTolPerUnit == 16           \* 16 * 2^-20 = 1.5e-5 of the magnitude of the terms (float32 accumulation)
 (* got[e] = <<floor(g), floor(2^20 frac(g))>> measured; returns "" or the first bad element *)
-PsfJudge(c, got) ==
-  LET num == OutOf(c, FullNum(c))
+PsfJudgeWith(c, full, got) ==
+  LET num == OutOf(c, full)
       D == PsfDen(c)
       mag == MaxInt(FullMag(c))
-      S == SumInt(FullNum(c))
+      S == SumInt(full)
       St == SumInt(num)
       sg(x) == IF x < 0 THEN -1 ELSE 1
       ExpFix(e, tot) == IF Normalised(c) THEN Fix20(sg(tot) * num[e] * c.norm[1], Abs(tot) * c.norm[2])
@@ -308,28 +308,46 @@ PsfJudge(c, got) ==
       Tol(tot) == IF Normalised(c) THEN 2 + 9 * CeilDiv(PsfTolPerUnit * mag * c.norm[1], Abs(tot) * c.norm[2])
                   ELSE 2 + CeilDiv(PsfTolPerUnit * mag, D)
       Near(e, tot) == Abs(FixDiff(got[e], ExpFix(e, tot))) <= Tol(tot)
-      AllNear(tot) == \A e \in DOMAIN num : Near(e, tot)
+      AllNear(tot) == tot # 0 /\ \A e \in DOMAIN num : Near(e, tot)
   IN IF Len(got) # Len(num) THEN "length"
-     ELSE IF AllNear(S) \/ (Normalised(c) /\ Trimmed(c) /\ AllNear(St)) THEN ""
+     ELSE IF ~Normalised(c) THEN (IF AllNear(1) THEN "" ELSE "value")
+     ELSE IF AllNear(S) \/ (Trimmed(c) /\ AllNear(St)) THEN ""
      ELSE "value"
+PsfJudge(c, got) == PsfJudgeWith(c, FullNum(c), got)
 
 (* ---- named deviations of pydl found with this module ---- *)
-(* D-X03-1  Dev_OrderOfFirstTemplate: the code applies template 1's (nrow_b, ncol_b) to every   *)
-(*          template: higher-order terms of later templates are dropped, or the garbage beyond  *)
-(*          their own order is added.                                                           *)
-(* D-X03-2  Dev_RowColOrdersSwapped: the code slices the coefficient table with the row order    *)
-(*          along the column-power axis; with nrow_b # ncol_b (of template 1) it raises a       *)
-(*          broadcasting ValueError or silently mixes terms.                                    *)
-Dev_OrderOfFirstTemplate(c) ==
-  [c EXCEPT !.tpl = [k \in DOMAIN c.tpl |-> [c.tpl[k] EXCEPT !.nr = c.tpl[1].nr, !.nc = c.tpl[1].nc]]]
-Dev_RowColOrdersSwapped(c) == c.tpl[1].nr # c.tpl[1].nc
-Dev_Affects(c) == \E k \in DOMAIN c.tpl : c.tpl[k].nr # c.tpl[k].nc \/ c.tpl[k].nr # c.tpl[1].nr \/ c.tpl[k].nc # c.tpl[1].nc
-(* which deviation, if any, explains an observed result exactly *)
-Dev_Explains(c, got) ==
-  IF Dev_RowColOrdersSwapped(c) THEN "D-X03-2"
-  ELSE LET d == Dev_OrderOfFirstTemplate(c)
-       IN IF d # c /\ (Normalised(c) => SumInt(FullNum(d)) # 0 /\ SumInt(OutOf(d, FullNum(d))) # 0) /\ PsfJudge(d, got) = ""
-          THEN "D-X03-1" ELSE ""
+(* The unfixed code computes, for EVERY template k, with (nr0, nc0) the orders of template 1:  *)
+(*     sum( c[k][0:nr0, 0:nc0] * transpose(P[0:nr0, 0:nc0]) ),  P[i][j] = y^i x^j,              *)
+(* where the file's table has the column power on its first axis.  Hence                       *)
+(* D-X03-1  (nr0 = nc0) the orders of template 1 are applied to every template: higher-order    *)
+(*          terms of later templates are dropped, or the garbage beyond their own order added.  *)
+(* D-X03-2  (nr0 # nc0) the table is sliced with the row order along the column-power axis:     *)
+(*          numpy refuses to multiply an nr0 x nc0 by an nc0 x nr0 array (ValueError) unless    *)
+(*          one order is 1, in which case it broadcasts them to an outer product:               *)
+(*          a_k = (sum of the first nc0 constant-in-x coefficients) * (1 + x + .. + x^(nc0-1))  *)
+(*          resp. the same with rows and columns exchanged.                                     *)
+Dev_Raises(c) == c.tpl[1].nr # c.tpl[1].nc /\ c.tpl[1].nr # 1 /\ c.tpl[1].nc # 1
+Dev_ANum(c, t) ==
+  LET nr0 == c.tpl[1].nr
+      nc0 == c.tpl[1].nc
+      u == PosRat(c.ypos)
+      w == PosRat(c.xpos)
+      dr == NrMax(c) - 1
+      dc == NcMax(c) - 1
+  IN IF nr0 = nc0 THEN ANum(c, [t EXCEPT !.nr = nr0, !.nc = nc0], TRUE)
+     ELSE IF nr0 = 1
+          THEN SumInt([a \in 1 .. nc0 |-> t.c[a][1]]) * SumInt([a \in 1 .. nc0 |-> Pow(w[1], a - 1) * Pow(w[2], dc - (a - 1))]) * Pow(u[2], dr)
+          ELSE SumInt([b \in 1 .. nr0 |-> t.c[1][b]]) * SumInt([b \in 1 .. nr0 |-> Pow(u[1], b - 1) * Pow(u[2], dr - (b - 1))]) * Pow(w[2], dc)
+Dev_FullNum(c) == LET a == [k \in DOMAIN c.tpl |-> Dev_ANum(c, c.tpl[k])] \o <<>>
+                  IN [q \in 1 .. (c.n * c.n) |-> SumInt([k \in DOMAIN c.tpl |-> a[k] * c.tpl[k].rr[q]])] \o <<>>
+Dev_Id(c) == IF c.tpl[1].nr = c.tpl[1].nc THEN "D-X03-1" ELSE "D-X03-2"
+(* which deviation, if any, explains an observed result / exception exactly *)
+Dev_ExplainsValue(c, got) == IF ~Dev_Raises(c) /\ Dev_FullNum(c) # FullNum(c) /\ PsfJudgeWith(c, Dev_FullNum(c), got) = ""
+                             THEN Dev_Id(c) ELSE ""
+Dev_ExplainsError(c, exc) ==
+  IF Dev_Raises(c) THEN (IF exc = "ValueError" THEN "D-X03-2" ELSE "")
+  ELSE IF exc = "non-finite or huge result" /\ Normalised(c) /\ SumInt(Dev_FullNum(c)) = 0 THEN Dev_Id(c)
+  ELSE ""
 
 Defined(c) == IF c.fn = "psf" THEN PsfDefined(c) ELSE RgbDefined(c)
 Expected(c) == IF c.fn = "psf" THEN PsfExpected(c) ELSE RgbExpected(c)
